@@ -1,15 +1,18 @@
 #!/bin/bash
-# tools/seed_eval.sh <PROP> [tier] [worktree]  -- confirm a seeded change in its scratch worktree and run the check against it
+# tools/seed_eval.sh <PROP> [tier] [worktree]  -- confirm a seeded change in its scratch worktree and run the check against it.
+# The worktree's source is first reset to HEAD + _seed/patch.diff (no git stash: the stash is shared between worktrees).
 P=$1; TIER=${2:-quick}; W=${3:-/tmp/seed_$P}
 cd $W || exit 9
+git checkout -q -- propka
+if ! git apply _seed/patch.diff; then echo "PATCH DOES NOT APPLY"; exit 8; fi
 echo "== $P: changed files: $(git diff --stat -- propka | tail -1)"
 echo "-- suite with the change:"
 /venv/bin/python -m pytest -q -p no:cacheprovider --timeout=900 2>&1 | tail -1
 echo "-- demo with the change (expect exit 1):"
 /venv/bin/python _seed/demo.py > /tmp/seed_demo_$P.with 2>&1; echo "exit $?"
-git stash -q -- propka
+git apply -R _seed/patch.diff
 echo "-- demo without the change (expect exit 0):"
 /venv/bin/python _seed/demo.py > /tmp/seed_demo_$P.without 2>&1; echo "exit $?"
-git stash pop -q
+git apply _seed/patch.diff
 echo "-- check $P ($TIER) against the changed tree:"
 cd /verif && PROPKA_REPO=$W ./check $P --tier $TIER --no-evidence 2>&1 | grep -v "^claim\|^$\|^replay\|KNOWN-FINDING" | cut -c1-230 | tail -5
